@@ -3,6 +3,7 @@
 import collections
 import contextlib
 import ctypes
+import functools
 import os
 import signal
 import subprocess
@@ -136,6 +137,26 @@ def use_main_jobs():
     finally:
         _jobs_thread_local.tasks = old_tasks
         _jobs_thread_local.jobs = old_jobs
+
+
+# The job table is two structures (the job dict and the MRU deque of job
+# numbers) that are updated separately.  ``jobs``, ``bg`` and ``disown`` run on
+# an alias thread (``jobs | cat``) under ``use_main_jobs()`` while the main
+# thread registers and polls pipelines (``add_job``, ``get_next_task`` ->
+# ``_clear_dead_jobs``).  Every update of, and every iteration over, the pair
+# happens under this lock.  It is re-entrant because the helpers call each
+# other and ``_clear_dead_jobs`` can also run from the SIGHUP handler, i.e. on
+# the main thread in the middle of one of them.
+_jobs_lock = threading.RLock()
+
+
+def _with_jobs_lock(func):
+    @functools.wraps(func)
+    def wrapper(*args, **kwargs):
+        with _jobs_lock:
+            return func(*args, **kwargs)
+
+    return wrapper
 
 
 def get_tasks() -> collections.deque[int]:
@@ -396,6 +417,7 @@ def _safe_wait_for_active_job(last_task=None, backgrounded=False):
     return rtn
 
 
+@_with_jobs_lock
 def get_next_task():
     """Get the next active task and put it on top of the queue"""
     tasks = get_tasks()
@@ -417,6 +439,7 @@ def get_task(tid):
     return get_jobs()[tid]
 
 
+@_with_jobs_lock
 def _clear_dead_jobs():
     to_remove = set()
     tasks = get_tasks()
@@ -481,6 +504,7 @@ def print_one_job(num, outfile=sys.stdout, format="dict"):
         print(info, file=outfile)
 
 
+@_with_jobs_lock
 def get_next_job_number():
     """Get the lowest available unique job number (for the next job created)."""
     _clear_dead_jobs()
@@ -490,6 +514,7 @@ def get_next_job_number():
     return i
 
 
+@_with_jobs_lock
 def add_job(info):
     """Add a new job to the jobs dictionary."""
     num = get_next_job_number()
@@ -505,6 +530,7 @@ def add_job(info):
         print_one_job(num)
 
 
+@_with_jobs_lock
 def update_job_attr(pid, name, value):
     """Update job attribute."""
     jobs = get_jobs()
@@ -586,17 +612,40 @@ def jobs(args, stdin=None, stdout=sys.stdout, stderr=None):
 
     Display a list of all current jobs.
     """
-    _clear_dead_jobs()
     format = "posix" if "--posix" in args else "dict"
-    for j in get_tasks():
-        print_one_job(j, outfile=stdout, format=format)
+    with _jobs_lock:
+        _clear_dead_jobs()
+        lines = [format_job_string(j, format) for j in get_tasks()]
+    # write outside the lock: whoever reads ``stdout`` may be slow
+    for info in lines:
+        if info:
+            print(info, file=stdout)
     return None, None
 
 
-def resume_job(args, wording: tp.Literal["fg", "bg"]):
+def resume_job(args, wording: tp.Literal["fg", "bg"], resumed=None):
     """
     used by fg and bg to resume a job either in the foreground or in the background.
+    If ``resumed`` is a list, the job that was resumed is appended to it.
     """
+    with _jobs_lock:
+        res = _select_job_to_resume(args, wording)
+    if isinstance(res[0], str):
+        return res  # (stdout, stderr) of a refused request
+    tid, job = res
+    if resumed is not None:
+        resumed.append(job)
+    if XSH.env.get("XONSH_INTERACTIVE"):
+        print_one_job(tid)
+    pipeline = job["pipeline"]
+    pipeline.resume(
+        job, tee_output=(wording == "fg")
+    )  # do not tee output for background jobs
+
+
+def _select_job_to_resume(args, wording):
+    """Picks the job ``fg``/``bg`` act on and moves it to the top of the queue.
+    Returns ``(number, job)`` or the ``(stdout, stderr)`` error tuple."""
     _clear_dead_jobs()
     tasks = get_tasks()
     if len(tasks) == 0:
@@ -627,12 +676,7 @@ def resume_job(args, wording: tp.Literal["fg", "bg"]):
     job = get_task(tid)
     job["bg"] = False
     job["status"] = "running"
-    if XSH.env.get("XONSH_INTERACTIVE"):
-        print_one_job(tid)
-    pipeline = job["pipeline"]
-    pipeline.resume(
-        job, tee_output=(wording == "fg")
-    )  # do not tee output for background jobs
+    return tid, job
 
 
 @unthreadable
@@ -654,9 +698,12 @@ def bg(args, stdin=None):
     Resume execution of the currently active job in the background, or, if a
     single number is given as an argument, resume that job in the background.
     """
-    res = resume_job(args, wording="bg")
+    resumed: list = []
+    res = resume_job(args, wording="bg", resumed=resumed)
     if res is None:
-        curtask = get_task(get_tasks()[0])
+        # the job itself, not "whatever is first in the queue now": another
+        # thread may have purged or reordered the table in the meantime
+        curtask = resumed[0]
         curtask["bg"] = True
         _continue(curtask)
     else:
@@ -670,6 +717,7 @@ def job_id_completer(xsh, **_):
 
 
 @use_main_jobs()
+@_with_jobs_lock
 def disown_fn(
     job_ids: Annotated[
         tp.Sequence[int], Arg(type=int, nargs="*", completer=job_id_completer)
